@@ -143,9 +143,9 @@ root of `entry_only_via_loop` (it reaches no step / final callback except throug
 `timer_roots_enqueue` (it does reach a channel send).  Stated by kind / key, not by closure number. -/
 theorem waterfall_covered :
     (∃ l ∈ graph.lits, l.1 ∈ graph.timerRoots ∧ l.1 ∈ forbiddenRoots graph ∧
-        graph.kinds.getD l.2 "" = "assigned:field waterfall.Chain.callbackFunc") ∧
-    (∃ s ∈ graph.sites, graph.keys.getD s.2 "" = "field waterfall.Chain.tasks[]" ∧ s.1 ∈ loopSites graph ∧ s.1 ∈ svcNodes graph) ∧
-    (∃ s ∈ graph.sites, graph.keys.getD s.2 "" = "field waterfall.Chain.final" ∧ s.1 ∈ loopSites graph ∧ s.1 ∈ svcNodes graph) := by
+        graph.kinds.getD l.2 "" = "assigned:field waterfall.Chain.~waterfall.Callback") ∧
+    (∃ s ∈ graph.sites, graph.keys.getD s.2 "" = "field waterfall.Chain.~[]waterfall.Task[]" ∧ s.1 ∈ loopSites graph ∧ s.1 ∈ svcNodes graph) ∧
+    (∃ s ∈ graph.sites, graph.keys.getD s.2 "" = "field waterfall.Chain.~waterfall.FinalCallback" ∧ s.1 ∈ loopSites graph ∧ s.1 ∈ svcNodes graph) := by
   decide +kernel
 
 /-- non-vacuity of the graph theorems: there are spawned goroutines, service sites, consumer
